@@ -139,9 +139,12 @@ def recurrence_rules(chk, fi):
     rec_names = {fi.params[0]}
     loops = []
     zeros_init = set()
+    len_names = set()
     for st in fi.node.body:
         if isinstance(st, ast.Assign) and len(st.targets) == 1 and isinstance(st.targets[0], ast.Name):
             used = {n.id for n in ast.walk(st.value) if isinstance(n, ast.Name)}
+            if used & rec_names and isinstance(st.value, ast.Call) and ast.unparse(st.value.func) == "len":
+                len_names.add(st.targets[0].id)        # n = len(record), hoisted out of the loop header
             if used & rec_names and not (isinstance(st.value, ast.Call) and ast.unparse(st.value.func).endswith(("zeros", "zeros_like", "len"))):
                 rec_names.add(st.targets[0].id)
             if isinstance(st.value, ast.Call) and ast.unparse(st.value.func).split(".")[-1] in ("zeros", "zeros_like"):
@@ -149,7 +152,7 @@ def recurrence_rules(chk, fi):
         if isinstance(st, ast.For) and isinstance(st.target, ast.Name) and isinstance(st.iter, ast.Call) and \
                 ast.unparse(st.iter.func) == "range":
             used = {n.id for n in ast.walk(st.iter) if isinstance(n, ast.Name)}
-            if used & rec_names:
+            if used & (rec_names | len_names):
                 loops.append(st)
     if len(loops) != 1:
         chk.ob("R-CAUSAL", c, "one time loop over the record in the response routine", False,
@@ -173,6 +176,22 @@ def recurrence_rules(chk, fi):
                 if isinstance(t, ast.Subscript):
                     stores.append((st, t))
     state = {_base_name(t) for _, t in stores}
+    # per-step temporaries (u_i = u[s:, i]) assigned once, directly in the loop body, are substituted into the stored expressions
+    fn_counts = {}
+    for n in ast.walk(fi.node):
+        if isinstance(n, ast.Name) and isinstance(n.ctx, ast.Store):
+            fn_counts[n.id] = fn_counts.get(n.id, 0) + 1
+    step_env = {}
+    for st in loop.body:
+        if isinstance(st, ast.Assign) and len(st.targets) == 1 and isinstance(st.targets[0], ast.Name) and fn_counts.get(st.targets[0].id) == 1:
+            step_env[st.targets[0].id] = st.value
+
+    class _Sub(ast.NodeTransformer):
+        def visit_Name(self, n):
+            if isinstance(n.ctx, ast.Load) and n.id in step_env:
+                import copy as _copy
+                return self.visit(_copy.deepcopy(step_env[n.id]))
+            return n
     # names assigned in the loop from loop-invariant expressions are themselves invariant (hoisted temporaries)
     variant = set(var) | state
     changed = True
@@ -210,7 +229,8 @@ def recurrence_rules(chk, fi):
         ks = offs[0]
         chk.ob("R-TINV", c + "{store-col}", "column 0 (the initial state) is never stored (store offset >= 1 with the loop from 0)",
                ks >= 1 and start0, derived="store at %s%+d, loop starts at 0: %s" % (var, ks, start0), loc=fi.loc(st), stmt=key)
-        rhs = st.value
+        import copy as _copy
+        rhs = _Sub().visit(_copy.deepcopy(st.value))
         bad_state, bad_rec, bad_other, bare = [], [], [], []
         subs_seen = set()
         for n in ast.walk(rhs):
@@ -241,7 +261,7 @@ def recurrence_rules(chk, fi):
                derived="; ".join(bad_other + (["bare use of %s" % vname] if bare else [])) or "coefficients loop-invariant",
                loc=fi.loc(st), stmt=key)
         used = {n.id for n in ast.walk(rhs) if isinstance(n, ast.Name)} - state - rec_names - set(var)
-        rebound = sorted(used & assigned_in_loop & variant)
+        rebound = sorted(used & assigned_in_loop & variant - set(step_env))
         chk.ob("R-TINV", c + "{rebinding}", "coefficients are not re-bound inside the loop", not rebound,
                derived="re-bound: %s" % rebound if rebound else "none of %s assigned in the loop" % sorted(used), loc=fi.loc(st), stmt=key)
     notz = sorted(s for s in state if s not in zeros_init)
